@@ -308,8 +308,12 @@ func judgeC04(c *core.Case, cfg *core.Config) core.Verdict {
 	if perr == nil {
 		stage = "compile error"
 	}
+	norun := c.Bool("norun") // fuzzed sources whose run time is not bounded by construction are only compiled
 	// Eval (its own pipeline)
 	for _, env := range o.runEnvs(spec) {
+		if norun {
+			break
+		}
 		var out interface{}
 		var eerr error
 		if p := guard("expr.Eval", func() { out, eerr = expr.Eval(src, env) }); p != "" {
@@ -326,6 +330,9 @@ func judgeC04(c *core.Case, cfg *core.Config) core.Verdict {
 			return fail(p)
 		}
 		for _, env := range o.runEnvs(spec) {
+			if norun {
+				break
+			}
 			var out interface{}
 			var rerr error
 			if p := guard("expr.Run", func() { out, rerr = expr.Run(prog, env) }); p != "" {
